@@ -770,6 +770,7 @@ class SymStr(Proxy):
     def _derived(self, op, len_rel):
         """A derived opaque symbol op(self) with a length relation to self."""
         if self.is_literal():
+            if op.startswith('prefix'): return self.literal()[:int(op[6:])]
             return getattr(self.literal(), op)()
         name = '%s(%s)' % (op, self.key())
         r = SymStr.sym(name)
@@ -808,6 +809,9 @@ class SymStr(Proxy):
                 elif p[0] == 'lit': out.append(('lit', p[1][:left])); left = 0
                 else: raise Unsupported('slice cuts an integer piece')
             return SymStr(out)
+        if isinstance(k, slice) and k.step is None and k.start in (None, 0) and isinstance(k.stop, int) and k.stop >= 0:
+            stop = k.stop                      # prefix of an arbitrary string: an opaque symbol whose length is min(len, stop)
+            return self._derived('prefix%d' % stop, lambda m, n: m == z3.If(n <= stop, n, z3.IntVal(stop)))
         raise Unsupported('SymStr[%r]' % (k,))
 
     def _absent(self, ch):
